@@ -14,7 +14,9 @@ Mirrors `direct/checkpointer.py` as it is **now** in /repo:
   assumption about `torch.save` / `torch.load`, carried by the `decode` parameter).
 
 File system: `open(…, "w")` truncates, `write` appends, `os.replace` is atomic, `close` changes
-nothing.  A **crash** is a prefix of the operation list whose last `write` may be cut at any length
+nothing, `os.remove` / `Path.unlink` removes the name.  The current `save` deletes nothing; `Stmt.prune` / `opsOfX` /
+`wfSaveX` describe save routines that also delete older checkpoints (`max_to_keep`-style options), so that such a change is
+translated instead of ignored (`Props/C15Engine.lean : crash_safe_with_pruning`, `prune_before_pointer_violates`).  A **crash** is a prefix of the operation list whose last `write` may be cut at any length
 (`CrashOf`, enumerated by `crashAt`).
 -/
 namespace DirectVerif.Ckpt
